@@ -63,8 +63,8 @@ func keyForPrefixedStringMapsAsKey(buf []byte, prefix string, maps ...map[string
 	}
 
 	var lastKey string // last key written to the buffer
-	for _, k := range keys {
-		if len(lastKey) > 0 {
+	for i, k := range keys {
+		if i > 0 {
 			if k == lastKey {
 				// Already wrote this key.
 				continue
